@@ -146,14 +146,14 @@ func TestMakeKnown(t *testing.T) {
 		"C11/panic@/vng[nil-metadata-node]":                                            byteMuts("meta"),
 		"C11/panic@/vng.(*PrimitiveBuilder).ReadBytes":                                 uintEdits(1<<64 - 1),
 		"C11/panic@/vng.(*DictBuilder).ReadBytes":                                      uintEdits(1<<64 - 1),
-		"C11/alloc/vng": uintEdits(1<<31 - 1),
-		"C11/panic@/zcode.(*Iter).Next<-/vng.(*PrimitiveBuilder).ReadBytes": byteMuts("data"),
-		"C11/panic@/vng.(*dynamicBuilder).Read":                             byteMuts("data"),
-		"C11/panic@/zson.parseStringBytes":                                  lit("zson", []byte(`"\ud800"`), false, ""),
-		"C11/alloc/json":                                                    lit("json", jsonDeep(1000, 27), false, "named"),
-		"C11/alloc/zson":                                                    lit("zson", jsonDeep(1000, 27), false, "named"),
-		"C11/alloc/zng":                                                     lit("zng", zngChains(300, 46), false, "named"),
-		"C11/compile/panic@/compiler/parser.(*current).on*[grammar-action]": {{Case{Kind: "query", Query: "sort -r -r"}, ""}},
+		"C11/alloc/vng/big-blocks":                                                     uintEdits(1<<31 - 1),
+		"C11/panic@/zcode.(*Iter).Next<-/vng.(*PrimitiveBuilder).ReadBytes":            byteMuts("data"),
+		"C11/panic@/vng.(*dynamicBuilder).Read":                                        byteMuts("data"),
+		"C11/panic@/zson.parseStringBytes":                                             lit("zson", []byte(`"\ud800"`), false, ""),
+		"C11/alloc/json/many-small":                                                    lit("json", jsonDeep(1000, 27), false, "named"),
+		"C11/alloc/zson/many-small":                                                    lit("zson", jsonDeep(1000, 27), false, "named"),
+		"C11/alloc/zng/many-small":                                                     lit("zng", zngChains(300, 46), false, "named"),
+		"C11/compile/panic@/compiler/parser.(*current).on*[grammar-action]":            {{Case{Kind: "query", Query: "sort -r -r"}, ""}},
 	}
 	idOf := map[string]string{}
 	b, err := os.ReadFile("/verif/harness/c11/known.json")
